@@ -42,143 +42,173 @@ Inductive steps (w : world) : path -> path -> Prop :=
 
 (* ---- one call of the walk, unfolded ---- *)
 
-Definition go_incs (f : nat) (w : world) (branch : list path) (cur : path) :=
-  fix go (incs : list string) (loaded : list path) : wres :=
+Definition go_incs (skip : bool) (f : nat) (w : world) (branch : list path) (cur : path) :=
+  fix go (incs : list string) (loaded : list path) (calls : N) : wres :=
     match incs with
-    | [] => WOk loaded
+    | [] => WOk loaded calls
     | i :: r =>
         match resolve w cur i with
         | None => WMissing
         | Some t =>
             if mem_path t (cur :: branch) then WCycle
-            else match walk f w (cur :: branch) t loaded with
-                 | WOk l' => go r l'
+            else if skip && mem_path t loaded then go r loaded calls
+            else match walk_gen skip f w (cur :: branch) t loaded calls with
+                 | WOk l' c' => go r l' c'
                  | e => e
                  end
         end
     end.
 
-Lemma walk_unfold f w branch cur loaded :
-  walk (S f) w branch cur loaded =
+Lemma walk_unfold skip f w branch cur loaded calls :
+  walk_gen skip (S f) w branch cur loaded calls =
   match lookup_file cur (w_files w) with
   | None => WMissing
   | Some None => WParse
   | Some (Some incs) =>
-      go_incs f w branch cur incs (if mem_path cur loaded then loaded else cur :: loaded)
+      go_incs skip f w branch cur incs (if mem_path cur loaded then loaded else cur :: loaded) (calls + 1)%N
   end.
 Proof. reflexivity. Qed.
 
-(* a successful walk of [cur]: its file parses, every include resolves to a file not on the
-   branch, and the walk of that file (with [cur] pushed on the branch) succeeds *)
-Lemma go_incs_ok f w branch cur : forall incs loaded l,
-  go_incs f w branch cur incs loaded = WOk l ->
-  forall i, In i incs ->
-    exists t ld l', resolve w cur i = Some t /\ ~ In t (cur :: branch) /\
-                    walk f w (cur :: branch) t ld = WOk l'.
+(* ---- what acceptance means: the file and everything below it is in order ---- *)
+
+(* [Fin w p]: p parses, each of its includes resolves, and the same holds - inductively, hence
+   without a cycle - for every file it includes *)
+Inductive Fin (w : world) : path -> Prop :=
+| Fin_intro p incs :
+    includes_of w p = Some incs ->
+    (forall i, In i incs -> exists t, resolve w p i = Some t) ->
+    (forall t, edge w p t -> Fin w t) ->
+    Fin w p.
+
+Lemma Fin_edge w p t : Fin w p -> edge w p t -> Fin w t.
+Proof. intros H E. destruct H as [p incs _ _ H]. now apply H. Qed.
+
+Lemma steps_snoc w a b c : steps w a b -> edge w b c -> steps w a c.
 Proof.
-  induction incs as [|j incs IH]; intros loaded l H i Hi; [destruct Hi|].
-  cbn [go_incs] in H.
-  destruct (resolve w cur j) as [t|] eqn:ER; [|discriminate].
-  destruct (mem_path t (cur :: branch)) eqn:EM; [discriminate|].
-  destruct (walk f w (cur :: branch) t loaded) as [l1| | | |] eqn:EW; try discriminate.
-  destruct Hi as [<-|Hi].
-  - exists t, loaded, l1. repeat split; try assumption.
-    intro Hin. apply mem_path_In in Hin. congruence.
-  - exact (IH _ _ H i Hi).
+  induction 1 as [p t E | p t u E S IH]; intro E2.
+  - eapply steps_more; [exact E | now apply steps_one].
+  - eapply steps_more; [exact E | now apply IH].
 Qed.
 
-Lemma walk_ok_inv f w branch cur loaded l :
-  walk f w branch cur loaded = WOk l ->
-  exists f' incs, f = S f' /\ includes_of w cur = Some incs /\
-    forall i, In i incs ->
-      exists t ld l', resolve w cur i = Some t /\ ~ In t (cur :: branch) /\
-                      walk f' w (cur :: branch) t ld = WOk l'.
+Lemma Fin_no_cycle w p : Fin w p -> ~ steps w p p.
 Proof.
-  destruct f as [|f']; [discriminate|]. rewrite walk_unfold. unfold includes_of.
-  destruct (lookup_file cur (w_files w)) as [[incs|]|]; try discriminate.
-  intro H. exists f', incs. repeat split. intros i Hi. exact (go_incs_ok _ _ _ _ _ _ _ H i Hi).
+  induction 1 as [p incs HI HR HF IH]. intro S.
+  inversion S as [p0 t E | p0 t u E S']; subst.
+  - exact (IH p E (steps_one _ _ _ E)).
+  - exact (IH t E (steps_snoc _ _ _ _ S' E)).
 Qed.
 
-(* every file reachable from the main file is walked successfully *)
-Definition walked_ok (w : world) (p : path) : Prop :=
-  exists f br ld l, walk f w br p ld = WOk l.
+(* loaded files that are not on the branch are finished *)
+Definition Inv (w : world) (L B : list path) : Prop := forall p, In p L -> ~ In p B -> Fin w p.
 
-Lemma walked_ok_edge w p t : walked_ok w p -> edge w p t -> walked_ok w t.
+Lemma go_incs_fin skip f w branch cur
+  (IH : forall t ld cl l c, Inv w ld (cur :: branch) ->
+        walk_gen skip f w (cur :: branch) t ld cl = WOk l c ->
+        Inv w l (cur :: branch) /\ In t l /\ incl ld l) :
+  forall incs loaded calls l c, Inv w loaded (cur :: branch) ->
+    go_incs skip f w branch cur incs loaded calls = WOk l c ->
+    Inv w l (cur :: branch) /\ incl loaded l /\
+    forall i, In i incs -> exists t, resolve w cur i = Some t /\ Fin w t.
 Proof.
-  intros (f & br & ld & l & H) (incs & i & HI & Hin & HR).
-  destruct (walk_ok_inv _ _ _ _ _ _ H) as (f' & incs' & -> & HI' & HA).
-  rewrite HI in HI'. inversion HI'; subst incs'.
-  destruct (HA i Hin) as (t' & ld' & l' & HR' & _ & HW).
-  rewrite HR in HR'. inversion HR'; subst t'. exists f', (p :: br), ld', l'. exact HW.
+  induction incs as [|j incs IHi]; intros loaded calls l c HI H; cbn [go_incs] in H.
+  - inversion H; subst. repeat split; [exact HI | apply incl_refl | intros i []].
+  - destruct (resolve w cur j) as [t|] eqn:ER; [|discriminate].
+    destruct (mem_path t (cur :: branch)) eqn:EM; [discriminate|].
+    assert (NB : ~ In t (cur :: branch)) by (intro X; apply mem_path_In in X; congruence).
+    destruct (skip && mem_path t loaded) eqn:ES.
+    + apply andb_prop in ES. destruct ES as [_ ES]. apply mem_path_In in ES.
+      destruct (IHi _ _ _ _ HI H) as (A & B & C). repeat split; [exact A | exact B|].
+      intros i [<-|Hi]; [exists t; split; [exact ER | now apply HI] | now apply C].
+    + destruct (walk_gen skip f w (cur :: branch) t loaded calls) as [l1 c1| | | |] eqn:EW; try discriminate.
+      destruct (IH _ _ _ _ _ HI EW) as (A1 & T1 & I1).
+      destruct (IHi _ _ _ _ A1 H) as (A & B & C). repeat split; [exact A | eapply incl_tran; eassumption|].
+      intros i [<-|Hi]; [exists t; split; [exact ER | now apply A1] | now apply C].
 Qed.
 
-Lemma reach_walked_ok w l : walk_main w = WOk l -> forall p, reach w p -> walked_ok w p.
+Lemma walk_fin skip w : forall f branch cur loaded calls l c,
+  Inv w loaded branch -> walk_gen skip f w branch cur loaded calls = WOk l c ->
+  Inv w l branch /\ In cur l /\ incl loaded l.
 Proof.
-  intros H p R. induction R as [|p t R IH E]; [eexists _, _, _, _; exact H | exact (walked_ok_edge _ _ _ IH E)].
+  induction f as [|f IH]; intros branch cur loaded calls l c HI H; [discriminate|].
+  rewrite walk_unfold in H.
+  destruct (lookup_file cur (w_files w)) as [[incs|]|] eqn:EL; try discriminate.
+  set (loaded0 := if mem_path cur loaded then loaded else cur :: loaded) in *.
+  assert (I0 : Inv w loaded0 (cur :: branch)).
+  { intros p Hp Hn. apply HI.
+    - unfold loaded0 in Hp. destruct (mem_path cur loaded); [exact Hp|].
+      destruct Hp as [<-|Hp]; [exfalso; apply Hn; now left | exact Hp].
+    - intro X. apply Hn. now right. }
+  assert (C0 : In cur loaded0).
+  { unfold loaded0. destruct (mem_path cur loaded) eqn:EM; [now apply mem_path_In | now left]. }
+  assert (L0 : incl loaded loaded0).
+  { unfold loaded0. destruct (mem_path cur loaded); [apply incl_refl | apply incl_tl, incl_refl]. }
+  destruct (go_incs_fin skip f w branch cur (fun t ld cl l0 c0 => IH (cur :: branch) t ld cl l0 c0)
+              incs loaded0 _ l c I0 H) as (A & B & C).
+  assert (FC : Fin w cur).
+  { apply (Fin_intro w cur incs).
+    - unfold includes_of. now rewrite EL.
+    - intros i Hi. destruct (C i Hi) as (t & HR & _). eauto.
+    - intros t (incs' & i & HI' & Hin & HR). unfold includes_of in HI'. rewrite EL in HI'.
+      inversion HI'; subst incs'. destruct (C i Hin) as (t' & HR' & FT). rewrite HR in HR'.
+      inversion HR'; subst t'. exact FT. }
+  repeat split.
+  - intros p Hp Hn. destruct (path_eqb p cur) eqn:E.
+    + apply path_eqb_eq in E. subst p. exact FC.
+    + apply A; [exact Hp|]. intros [X|X]; [subst p; rewrite (proj2 (path_eqb_eq cur cur) eq_refl) in E; discriminate | contradiction].
+  - apply B. exact C0.
+  - eapply incl_tran; eassumption.
 Qed.
 
-Theorem accepted_reachable_resolve w l :
-  walk_main w = WOk l ->
+Theorem accepted_main_fin skip w l c : walk_main_gen skip w = WOk l c -> Fin w (w_main w).
+Proof.
+  intro H. unfold walk_main_gen in H.
+  destruct (walk_fin skip w _ _ _ _ _ _ _ (fun p (X : In p []) => match X with end) H) as (A & B & _).
+  apply A; [exact B | intros []].
+Qed.
+
+Lemma reach_fin skip w l c : walk_main_gen skip w = WOk l c -> forall p, reach w p -> Fin w p.
+Proof.
+  intros H p R. induction R as [|p t R IH E]; [exact (accepted_main_fin _ _ _ _ H) | exact (Fin_edge _ _ _ IH E)].
+Qed.
+
+Theorem accepted_reachable_resolve skip w l c :
+  walk_main_gen skip w = WOk l c ->
   forall p, reach w p ->
     exists incs, includes_of w p = Some incs /\ forall i, In i incs -> exists t, resolve w p i = Some t.
 Proof.
-  intros H p R.
-  destruct (reach_walked_ok w l H p R) as (f & br & ld & l0 & HW).
-  destruct (walk_ok_inv _ _ _ _ _ _ HW) as (f' & incs & -> & HI & HA).
-  exists incs. split; [exact HI|]. intros i Hi. destruct (HA i Hi) as (t & _ & _ & HR & _). eauto.
+  intros H p R. destruct (reach_fin _ _ _ _ H p R) as [p incs HI HR _]. exists incs. split; assumption.
 Qed.
 
-(* no cycle through a reachable file *)
-Lemma walk_ok_no_return w : forall x y, steps w x y ->
-  forall f br ld l, walk f w br x ld = WOk l -> ~ In y (x :: br).
-Proof.
-  induction 1 as [p t E | p t u E S IH]; intros f br ld l H.
-  - destruct E as (incs & i & HI & Hin & HR).
-    destruct (walk_ok_inv _ _ _ _ _ _ H) as (f' & incs' & -> & HI' & HA).
-    rewrite HI in HI'. inversion HI'; subst incs'.
-    destruct (HA i Hin) as (t' & ld' & l' & HR' & HN & _).
-    rewrite HR in HR'. inversion HR'; subst t'. exact HN.
-  - destruct E as (incs & i & HI & Hin & HR).
-    destruct (walk_ok_inv _ _ _ _ _ _ H) as (f' & incs' & -> & HI' & HA).
-    rewrite HI in HI'. inversion HI'; subst incs'.
-    destruct (HA i Hin) as (t' & ld' & l' & HR' & HN & HW).
-    rewrite HR in HR'. inversion HR'; subst t'.
-    specialize (IH _ _ _ _ HW). intro Hin'. apply IH. now right.
-Qed.
-
-Theorem accepted_no_reachable_cycle w l :
-  walk_main w = WOk l -> forall p, reach w p -> ~ steps w p p.
-Proof.
-  intros H p R S.
-  destruct (reach_walked_ok w l H p R) as (f & br & ld & l0 & HW).
-  apply (walk_ok_no_return w p p S _ _ _ _ HW). now left.
-Qed.
+Theorem accepted_no_reachable_cycle skip w l c :
+  walk_main_gen skip w = WOk l c -> forall p, reach w p -> ~ steps w p p.
+Proof. intros H p R. apply Fin_no_cycle. exact (reach_fin _ _ _ _ H p R). Qed.
 
 (* ---- termination: the fuel of walk_main is never exhausted ---- *)
 
-Lemma go_incs_not_fuel f w branch cur
-  (IH : forall t ld, ~ In t (cur :: branch) -> walk f w (cur :: branch) t ld <> WFuel) :
-  forall incs loaded, go_incs f w branch cur incs loaded <> WFuel.
+Lemma go_incs_not_fuel skip f w branch cur
+  (IH : forall t ld cl, ~ In t (cur :: branch) -> walk_gen skip f w (cur :: branch) t ld cl <> WFuel) :
+  forall incs loaded calls, go_incs skip f w branch cur incs loaded calls <> WFuel.
 Proof.
-  induction incs as [|j incs IHi]; intros loaded; cbn [go_incs]; [discriminate|].
+  induction incs as [|j incs IHi]; intros loaded calls; cbn [go_incs]; [discriminate|].
   destruct (resolve w cur j) as [t|]; [|discriminate].
   destruct (mem_path t (cur :: branch)) eqn:EM; [discriminate|].
   assert (NI : ~ In t (cur :: branch)) by (intro X; apply mem_path_In in X; congruence).
-  specialize (IH t loaded NI).
-  destruct (walk f w (cur :: branch) t loaded); try discriminate; [apply IHi | contradiction].
+  destruct (skip && mem_path t loaded); [apply IHi|].
+  specialize (IH t loaded calls NI).
+  destruct (walk_gen skip f w (cur :: branch) t loaded calls); try discriminate; [apply IHi | contradiction].
 Qed.
 
-Lemma walk_not_fuel w : forall f branch cur ld,
+Lemma walk_not_fuel skip w : forall f branch cur ld cl,
   NoDup branch -> ~ In cur branch -> incl branch (map fst (w_files w)) ->
   (List.length (w_files w) < f + List.length branch)%nat ->
-  walk f w branch cur ld <> WFuel.
+  walk_gen skip f w branch cur ld cl <> WFuel.
 Proof.
-  induction f as [|f IH]; intros branch cur ld ND NI INC LEN.
+  induction f as [|f IH]; intros branch cur ld cl ND NI INC LEN.
   - exfalso. cbn in LEN.
     pose proof (NoDup_incl_length ND INC) as L. rewrite map_length in L. lia.
   - rewrite walk_unfold.
     destruct (lookup_file cur (w_files w)) as [[incs|]|] eqn:EL; try discriminate.
-    apply go_incs_not_fuel. intros t ld' NT.
+    apply go_incs_not_fuel. intros t ld' cl' NT.
     apply IH.
     + constructor; assumption.
     + exact NT.
@@ -186,43 +216,392 @@ Proof.
     + cbn [List.length]. lia.
 Qed.
 
-Theorem walk_terminates w : walk_main w <> WFuel.
+Theorem walk_terminates skip w : walk_main_gen skip w <> WFuel.
 Proof.
-  unfold walk_main. apply walk_not_fuel.
+  unfold walk_main_gen. apply walk_not_fuel.
   - constructor.
   - intros [].
   - intros x [].
   - cbn. lia.
 Qed.
 
-(* ---- each file is loaded once ---- *)
+(* ---- each file is loaded once; what is loaded is a file ---- *)
 
-Lemma go_incs_nodup f w branch cur
-  (IH : forall t ld l, NoDup ld -> walk f w (cur :: branch) t ld = WOk l -> NoDup l /\ incl ld l) :
-  forall incs loaded l, NoDup loaded -> go_incs f w branch cur incs loaded = WOk l -> NoDup l /\ incl loaded l.
+Definition files_of (w : world) : list path := map fst (w_files w).
+
+Lemma go_incs_nodup skip f w branch cur
+  (IH : forall t ld cl l c, NoDup ld -> incl ld (files_of w) -> walk_gen skip f w (cur :: branch) t ld cl = WOk l c ->
+        NoDup l /\ incl l (files_of w)) :
+  forall incs loaded calls l c, NoDup loaded -> incl loaded (files_of w) ->
+    go_incs skip f w branch cur incs loaded calls = WOk l c -> NoDup l /\ incl l (files_of w).
 Proof.
-  induction incs as [|j incs IHi]; intros loaded l ND H; cbn [go_incs] in H.
-  - inversion H; subst. split; [exact ND | apply incl_refl].
+  induction incs as [|j incs IHi]; intros loaded calls l c ND IN H; cbn [go_incs] in H.
+  - inversion H; subst. split; assumption.
   - destruct (resolve w cur j) as [t|]; [|discriminate].
     destruct (mem_path t (cur :: branch)); [discriminate|].
-    destruct (walk f w (cur :: branch) t loaded) as [l1| | | |] eqn:EW; try discriminate.
-    destruct (IH _ _ _ ND EW) as [N1 I1]. destruct (IHi _ _ N1 H) as [N2 I2].
-    split; [exact N2 | eapply incl_tran; eassumption].
+    destruct (skip && mem_path t loaded); [exact (IHi _ _ _ _ ND IN H)|].
+    destruct (walk_gen skip f w (cur :: branch) t loaded calls) as [l1 c1| | | |] eqn:EW; try discriminate.
+    destruct (IH _ _ _ _ _ ND IN EW) as [N1 I1]. exact (IHi _ _ _ _ N1 I1 H).
 Qed.
 
-Lemma walk_nodup w : forall f branch cur ld l,
-  NoDup ld -> walk f w branch cur ld = WOk l -> NoDup l /\ incl ld l.
+Lemma walk_nodup skip w : forall f branch cur ld cl l c,
+  NoDup ld -> incl ld (files_of w) -> walk_gen skip f w branch cur ld cl = WOk l c ->
+  NoDup l /\ incl l (files_of w).
 Proof.
-  induction f as [|f IH]; intros branch cur ld l ND H; [discriminate|].
+  induction f as [|f IH]; intros branch cur ld cl l c ND IN H; [discriminate|].
   rewrite walk_unfold in H.
-  destruct (lookup_file cur (w_files w)) as [[incs|]|]; try discriminate.
+  destruct (lookup_file cur (w_files w)) as [[incs|]|] eqn:EL; try discriminate.
   destruct (mem_path cur ld) eqn:EM.
-  - apply (go_incs_nodup f w branch cur (fun t ld0 l0 => IH (cur :: branch) t ld0 l0) incs ld l ND H).
+  - exact (go_incs_nodup skip f w branch cur (fun t ld0 cl0 l0 c0 => IH (cur :: branch) t ld0 cl0 l0 c0) incs ld _ l c ND IN H).
   - assert (ND' : NoDup (cur :: ld)).
     { constructor; [|exact ND]. intro X. apply mem_path_In in X. congruence. }
-    destruct (go_incs_nodup f w branch cur (fun t ld0 l0 => IH (cur :: branch) t ld0 l0) incs _ l ND' H) as [N I].
-    split; [exact N|]. intros x Hx. apply I. now right.
+    assert (IN' : incl (cur :: ld) (files_of w)).
+    { intros x [<-|Hx]; [exact (lookup_file_In _ _ _ EL) | now apply IN]. }
+    exact (go_incs_nodup skip f w branch cur (fun t ld0 cl0 l0 c0 => IH (cur :: branch) t ld0 cl0 l0 c0) incs _ _ l c ND' IN' H).
 Qed.
 
-Theorem loaded_once w l : walk_main w = WOk l -> NoDup l.
-Proof. intro H. exact (proj1 (walk_nodup w _ _ _ _ _ (NoDup_nil _) H)). Qed.
+Theorem loaded_once skip w l c : walk_main_gen skip w = WOk l c -> NoDup l /\ incl l (files_of w).
+Proof. intro H. exact (walk_nodup skip w _ _ _ _ _ _ _ (NoDup_nil _) (fun x (X : In x []) => match X with end) H). Qed.
+
+(* ---- the repaired walk visits every file once: the number of walks is the number of
+        loaded files, at most the number of files of the world ---- *)
+
+Lemma go_incs_calls f w branch cur
+  (IH : forall t ld cl l c, ~ In t ld -> walk_gen true f w (cur :: branch) t ld cl = WOk l c ->
+        (c + N.of_nat (List.length ld) = cl + N.of_nat (List.length l))%N) :
+  forall incs loaded calls l c,
+    go_incs true f w branch cur incs loaded calls = WOk l c ->
+    (c + N.of_nat (List.length loaded) = calls + N.of_nat (List.length l))%N.
+Proof.
+  induction incs as [|j incs IHi]; intros loaded calls l c H; cbn [go_incs] in H.
+  - inversion H; subst. reflexivity.
+  - destruct (resolve w cur j) as [t|]; [|discriminate].
+    destruct (mem_path t (cur :: branch)); [discriminate|]. cbn [andb] in H.
+    destruct (mem_path t loaded) eqn:EM; [exact (IHi _ _ _ _ H)|].
+    destruct (walk_gen true f w (cur :: branch) t loaded calls) as [l1 c1| | | |] eqn:EW; try discriminate.
+    assert (NI : ~ In t loaded) by (intro X; apply mem_path_In in X; congruence).
+    pose proof (IH _ _ _ _ _ NI EW) as E1. pose proof (IHi _ _ _ _ H) as E2. lia.
+Qed.
+
+Lemma walk_calls w : forall f branch cur ld cl l c,
+  ~ In cur ld -> walk_gen true f w branch cur ld cl = WOk l c ->
+  (c + N.of_nat (List.length ld) = cl + N.of_nat (List.length l))%N.
+Proof.
+  induction f as [|f IH]; intros branch cur ld cl l c NI H; [discriminate|].
+  rewrite walk_unfold in H.
+  destruct (lookup_file cur (w_files w)) as [[incs|]|]; try discriminate.
+  destruct (mem_path cur ld) eqn:EM; [apply mem_path_In in EM; contradiction|].
+  pose proof (go_incs_calls f w branch cur (fun t ld0 cl0 l0 c0 => IH (cur :: branch) t ld0 cl0 l0 c0) incs _ _ l c H) as E.
+  cbn [List.length] in E. lia.
+Qed.
+
+Theorem walked_once w l c :
+  walk_main_gen true w = WOk l c ->
+  c = N.of_nat (List.length l) /\ (List.length l <= List.length (w_files w))%nat.
+Proof.
+  intro H. split.
+  - pose proof (walk_calls w _ _ _ _ _ _ _ (fun X : In (w_main w) [] => match X with end) H) as E.
+    cbn [List.length] in E. lia.
+  - destruct (loaded_once _ _ _ _ H) as [ND IN].
+    pose proof (NoDup_incl_length ND IN) as L. unfold files_of in L. now rewrite map_length in L.
+Qed.
+
+(* the pinned upstream walk visited a file once per path that reaches it: a ladder of n
+   diamonds (2n+1 files) takes 2^(n+1)-1 walks *)
+Fixpoint lvl (k : nat) : string := match k with O => "" | S k' => String "x" (lvl k') end.
+Definition ladder_file (k n : nat) (side : string) : path * option (list string) :=
+  (["r"; (side ++ lvl k ++ ".idl")%string],
+   Some (if Nat.ltb (S k) n then [("a" ++ lvl (S k) ++ ".idl")%string; ("b" ++ lvl (S k) ++ ".idl")%string] else [])).
+Definition ladder (n : nat) : world :=
+  mkW ((["r"; "m.idl"], Some ["a.idl"; "b.idl"]) ::
+       flat_map (fun k => [ladder_file k n "a"; ladder_file k n "b"]) (seq 0 n)) [] ["r"; "m.idl"].
+
+Example ladder_walks_upstream :
+  (match walk_main_gen false (ladder 9) with WOk l c => Some (N.of_nat (List.length l), c) | _ => None end) = Some (19, 1023)%N /\
+  (match walk_main_gen true (ladder 9) with WOk l c => Some (N.of_nat (List.length l), c) | _ => None end) = Some (19, 19)%N.
+Proof. split; vm_compute; reflexivity. Qed.
+
+(* ---- the converse: whatever is in order is accepted ---- *)
+
+Lemma steps_irrefl_of_fin w p : Fin w p -> ~ steps w p p.
+Proof. exact (Fin_no_cycle w p). Qed.
+
+Definition is_ok_or_fuel (r : wres) : Prop :=
+  match r with WOk _ _ | WFuel => True | _ => False end.
+
+Lemma go_incs_no_error skip f w branch cur
+  (FC : Fin w cur) (BR : forall b, In b branch -> steps w b cur)
+  (IH : forall t ld cl, Fin w t -> (forall b, In b (cur :: branch) -> steps w b t) ->
+        is_ok_or_fuel (walk_gen skip f w (cur :: branch) t ld cl)) :
+  forall incs, (forall i, In i incs -> exists t, resolve w cur i = Some t /\ edge w cur t) ->
+  forall loaded calls, is_ok_or_fuel (go_incs skip f w branch cur incs loaded calls).
+Proof.
+  induction incs as [|j incs IHi]; intros HE loaded calls; cbn [go_incs]; [exact I|].
+  destruct (HE j (or_introl eq_refl)) as (t & HR & E). rewrite HR.
+  assert (FT : Fin w t) by exact (Fin_edge _ _ _ FC E).
+  assert (NB : mem_path t (cur :: branch) = false).
+  { destruct (mem_path t (cur :: branch)) eqn:EM; [exfalso | reflexivity].
+    apply mem_path_In in EM. destruct EM as [<-|EM].
+    - exact (Fin_no_cycle _ _ FC (steps_one _ _ _ E)).
+    - exact (Fin_no_cycle _ _ FT (steps_snoc _ _ _ _ (BR _ EM) E)). }
+  rewrite NB.
+  assert (HE' : forall i, In i incs -> exists t0, resolve w cur i = Some t0 /\ edge w cur t0)
+    by (intros i Hi; apply HE; now right).
+  destruct (skip && mem_path t loaded); [now apply IHi|].
+  assert (B' : forall b, In b (cur :: branch) -> steps w b t).
+  { intros b [<-|Hb]; [now apply steps_one | exact (steps_snoc _ _ _ _ (BR _ Hb) E)]. }
+  specialize (IH t loaded calls FT B').
+  destruct (walk_gen skip f w (cur :: branch) t loaded calls); try contradiction; [now apply IHi | exact I].
+Qed.
+
+Lemma walk_no_error skip w : forall f branch cur ld cl,
+  Fin w cur -> (forall b, In b branch -> steps w b cur) ->
+  is_ok_or_fuel (walk_gen skip f w branch cur ld cl).
+Proof.
+  induction f as [|f IH]; intros branch cur ld cl FC BR; [exact I|].
+  rewrite walk_unfold. destruct FC as [cur incs HI HR HF].
+  unfold includes_of in HI.
+  destruct (lookup_file cur (w_files w)) as [[incs'|]|] eqn:EL; try discriminate.
+  inversion HI; subst incs'.
+  apply go_incs_no_error.
+  - apply (Fin_intro w cur incs); [unfold includes_of; now rewrite EL | exact HR | exact HF].
+  - exact BR.
+  - intros t ld' cl' FT B'. now apply IH.
+  - intros i Hi. destruct (HR i Hi) as (t & HT). exists t. split; [exact HT|].
+    exists incs, i. repeat split; [unfold includes_of; now rewrite EL | exact Hi | exact HT].
+Qed.
+
+Theorem fin_accepted skip w : Fin w (w_main w) -> exists l c, walk_main_gen skip w = WOk l c.
+Proof.
+  intro F. pose proof (walk_no_error skip w (S (List.length (w_files w))) [] (w_main w) [] 0%N F
+                         (fun b (X : In b []) => match X with end)) as H.
+  pose proof (walk_terminates skip w) as T. unfold walk_main_gen in *.
+  destruct (walk_gen skip (S (List.length (w_files w))) w [] (w_main w) [] 0%N); try contradiction; eauto.
+Qed.
+
+(* ---- "in order" in the words of the property: every reachable file parses and has every
+        include resolved, and no reachable file lies on a cycle ---- *)
+
+Definition ok_node (w : world) (p : path) : Prop :=
+  exists incs, includes_of w p = Some incs /\ forall i, In i incs -> exists t, resolve w p i = Some t.
+
+Inductive rt (w : world) (a : path) : path -> Prop :=
+| rt_refl : rt w a a
+| rt_step p t : rt w a p -> edge w p t -> rt w a t.
+
+Lemma rt_main_reach w p : rt w (w_main w) p <-> reach w p.
+Proof.
+  split; induction 1; try constructor; econstructor; eassumption.
+Qed.
+
+Lemma rt_edge_trans w a t p : edge w a t -> rt w t p -> rt w a p.
+Proof.
+  intros E R. induction R as [|p u R IH E2]; [eapply rt_step; [apply rt_refl | exact E] | eapply rt_step; eassumption].
+Qed.
+
+Lemma file_exists_In w p : file_exists w p = true -> In p (files_of w).
+Proof.
+  unfold file_exists, files_of. destruct (lookup_file p (w_files w)) eqn:E; [|discriminate].
+  intros _. exact (lookup_file_In _ _ _ E).
+Qed.
+
+Lemma resolve_is_file w cur i t : resolve w cur i = Some t -> In t (files_of w).
+Proof.
+  unfold resolve. destruct (has_dir_part i).
+  - match goal with |- context [file_exists w ?p] => destruct (file_exists w p) eqn:E end; [|discriminate].
+    intro H. inversion H; subst. now apply file_exists_In.
+  - intro H. apply find_some in H. destruct H as [_ H]. now apply file_exists_In.
+Qed.
+
+(* an acyclic part of a finite graph is well founded: the argument of walk_not_fuel *)
+Lemma acyclic_fin w : forall f path cur,
+  NoDup path -> ~ In cur path -> incl path (files_of w) ->
+  (List.length (w_files w) < f + List.length path)%nat ->
+  (forall b, In b path -> steps w b cur) ->
+  (forall p, rt w cur p -> ok_node w p /\ ~ steps w p p) ->
+  Fin w cur.
+Proof.
+  induction f as [|f IH]; intros path cur ND NI INC LEN BR OK.
+  - exfalso. cbn in LEN. pose proof (NoDup_incl_length ND INC) as L.
+    unfold files_of in L. rewrite map_length in L. lia.
+  - destruct (OK cur (rt_refl _ _)) as [(incs & HI & HR) NC].
+    apply (Fin_intro w cur incs HI HR). intros t E.
+    assert (CF : In cur (files_of w)).
+    { unfold includes_of in HI. destruct (lookup_file cur (w_files w)) as [[x|]|] eqn:EL; try discriminate.
+      exact (lookup_file_In _ _ _ EL). }
+    apply (IH (cur :: path) t).
+    + constructor; assumption.
+    + intros [<-|Hin].
+      * exact (NC (steps_one _ _ _ E)).
+      * destruct (OK t (rt_step _ _ _ _ (rt_refl _ _) E)) as [_ NT].
+        exact (NT (steps_snoc _ _ _ _ (BR _ Hin) E)).
+    + intros x [<-|Hx]; [exact CF | now apply INC].
+    + cbn [List.length]. lia.
+    + intros b [<-|Hb]; [now apply steps_one | exact (steps_snoc _ _ _ _ (BR _ Hb) E)].
+    + intros p R. apply OK. exact (rt_edge_trans _ _ _ _ E R).
+Qed.
+
+(* compilation succeeds exactly when every reachable file parses with every include resolved
+   and the reachable include graph has no cycle *)
+Theorem accepts_iff skip w :
+  (exists l c, walk_main_gen skip w = WOk l c) <->
+  (forall p, reach w p -> ok_node w p) /\ (forall p, reach w p -> ~ steps w p p).
+Proof.
+  split.
+  - intros (l & c & H). split.
+    + intros p R. exact (accepted_reachable_resolve _ _ _ _ H p R).
+    + intros p R. exact (accepted_no_reachable_cycle _ _ _ _ H p R).
+  - intros [A B]. apply fin_accepted.
+    apply (acyclic_fin w (S (List.length (w_files w))) [] (w_main w)).
+    + constructor.
+    + intros [].
+    + intros x [].
+    + cbn. lia.
+    + intros b [].
+    + intros p R. apply rt_main_reach in R. split; [now apply A | now apply B].
+Qed.
+
+(* ---- exactly the reachable files are loaded ---- *)
+
+Definition Closed (w : world) (L B : list path) : Prop :=
+  forall p, In p L -> ~ In p B -> forall t, edge w p t -> In t L.
+
+Lemma go_incs_closed skip f w branch cur
+  (IH : forall t ld cl l c, Closed w ld (cur :: branch) ->
+        walk_gen skip f w (cur :: branch) t ld cl = WOk l c ->
+        Closed w l (cur :: branch) /\ In t l /\ incl ld l) :
+  forall incs loaded calls l c, Closed w loaded (cur :: branch) ->
+    go_incs skip f w branch cur incs loaded calls = WOk l c ->
+    Closed w l (cur :: branch) /\ incl loaded l /\
+    forall i, In i incs -> exists t, resolve w cur i = Some t /\ In t l.
+Proof.
+  induction incs as [|j incs IHi]; intros loaded calls l c HI H; cbn [go_incs] in H.
+  - inversion H; subst. repeat split; [exact HI | apply incl_refl | intros i []].
+  - destruct (resolve w cur j) as [t|] eqn:ER; [|discriminate].
+    destruct (mem_path t (cur :: branch)) eqn:EM; [discriminate|].
+    destruct (skip && mem_path t loaded) eqn:ES.
+    + apply andb_prop in ES. destruct ES as [_ ES]. apply mem_path_In in ES.
+      destruct (IHi _ _ _ _ HI H) as (A & B & C). repeat split; [exact A | exact B|].
+      intros i [<-|Hi]; [exists t; split; [exact ER | now apply B] | now apply C].
+    + destruct (walk_gen skip f w (cur :: branch) t loaded calls) as [l1 c1| | | |] eqn:EW; try discriminate.
+      destruct (IH _ _ _ _ _ HI EW) as (A1 & T1 & I1).
+      destruct (IHi _ _ _ _ A1 H) as (A & B & C). repeat split; [exact A | eapply incl_tran; eassumption|].
+      intros i [<-|Hi]; [exists t; split; [exact ER | now apply B] | now apply C].
+Qed.
+
+Lemma walk_closed skip w : forall f branch cur loaded calls l c,
+  Closed w loaded branch -> walk_gen skip f w branch cur loaded calls = WOk l c ->
+  Closed w l branch /\ In cur l /\ incl loaded l.
+Proof.
+  induction f as [|f IH]; intros branch cur loaded calls l c HI H; [discriminate|].
+  rewrite walk_unfold in H.
+  destruct (lookup_file cur (w_files w)) as [[incs|]|] eqn:EL; try discriminate.
+  set (loaded0 := if mem_path cur loaded then loaded else cur :: loaded) in *.
+  assert (L0 : incl loaded loaded0).
+  { unfold loaded0. destruct (mem_path cur loaded); [apply incl_refl | apply incl_tl, incl_refl]. }
+  assert (I0 : Closed w loaded0 (cur :: branch)).
+  { intros p Hp Hn t E. apply L0. apply (HI p).
+    - unfold loaded0 in Hp. destruct (mem_path cur loaded); [exact Hp|].
+      destruct Hp as [<-|Hp]; [exfalso; apply Hn; now left | exact Hp].
+    - intro X. apply Hn. now right.
+    - exact E. }
+  assert (C0 : In cur loaded0).
+  { unfold loaded0. destruct (mem_path cur loaded) eqn:EM; [now apply mem_path_In | now left]. }
+  destruct (go_incs_closed skip f w branch cur (fun t ld cl l0 c0 => IH (cur :: branch) t ld cl l0 c0)
+              incs loaded0 _ l c I0 H) as (A & B & C).
+  repeat split.
+  - intros p Hp Hn t E. destruct (path_eqb p cur) eqn:EQ.
+    + apply path_eqb_eq in EQ. subst p. destruct E as (incs' & i & HI' & Hin & HR).
+      unfold includes_of in HI'. rewrite EL in HI'. inversion HI'; subst incs'.
+      destruct (C i Hin) as (t' & HR' & HT). rewrite HR in HR'. inversion HR'; subst t'. exact HT.
+    + apply (A p Hp); [|exact E].
+      intros [X|X]; [subst p; rewrite (proj2 (path_eqb_eq cur cur) eq_refl) in EQ; discriminate | contradiction].
+  - apply B. exact C0.
+  - eapply incl_tran; eassumption.
+Qed.
+
+Lemma go_incs_reach skip f w branch cur (RC : reach w cur)
+  (IH : forall t ld cl l c, reach w t -> (forall p, In p ld -> reach w p) ->
+        walk_gen skip f w (cur :: branch) t ld cl = WOk l c -> forall p, In p l -> reach w p) :
+  forall incs, (exists all, includes_of w cur = Some all /\ incl incs all) ->
+  forall loaded calls l c, (forall p, In p loaded -> reach w p) ->
+    go_incs skip f w branch cur incs loaded calls = WOk l c -> forall p, In p l -> reach w p.
+Proof.
+  induction incs as [|j incs IHi]; intros HA loaded calls l c HL H; cbn [go_incs] in H.
+  - inversion H; subst. exact HL.
+  - destruct (resolve w cur j) as [t|] eqn:ER; [|discriminate].
+    destruct (mem_path t (cur :: branch)); [discriminate|].
+    assert (HA' : exists all, includes_of w cur = Some all /\ incl incs all).
+    { destruct HA as (all & H1 & H2). exists all. split; [exact H1 | intros x Hx; apply H2; now right]. }
+    destruct (skip && mem_path t loaded); [exact (IHi HA' _ _ _ _ HL H)|].
+    destruct (walk_gen skip f w (cur :: branch) t loaded calls) as [l1 c1| | | |] eqn:EW; try discriminate.
+    assert (RT : reach w t).
+    { destruct HA as (all & H1 & H2). apply (reach_step w cur t RC). exists all, j.
+      repeat split; [exact H1 | apply H2; now left | exact ER]. }
+    exact (IHi HA' _ _ _ _ (IH _ _ _ _ _ RT HL EW) H).
+Qed.
+
+Lemma walk_reach skip w : forall f branch cur loaded calls l c,
+  reach w cur -> (forall p, In p loaded -> reach w p) ->
+  walk_gen skip f w branch cur loaded calls = WOk l c -> forall p, In p l -> reach w p.
+Proof.
+  induction f as [|f IH]; intros branch cur loaded calls l c RC HL H; [discriminate|].
+  rewrite walk_unfold in H.
+  destruct (lookup_file cur (w_files w)) as [[incs|]|] eqn:EL; try discriminate.
+  refine (go_incs_reach skip f w branch cur RC (fun t ld cl l0 c0 => IH (cur :: branch) t ld cl l0 c0) incs _ _ _ l c _ H).
+  - exists incs. split; [unfold includes_of; now rewrite EL | apply incl_refl].
+  - intros p Hp. destruct (mem_path cur loaded); [now apply HL|].
+    destruct Hp as [<-|Hp]; [exact RC | now apply HL].
+Qed.
+
+Theorem loaded_is_reachable skip w l c :
+  walk_main_gen skip w = WOk l c -> forall p, In p l <-> reach w p.
+Proof.
+  intro H. unfold walk_main_gen in H. intro p. split.
+  - apply (walk_reach skip w _ _ _ _ _ _ _ (reach_main w) (fun q (X : In q []) => match X with end) H).
+  - destruct (walk_closed skip w _ _ _ _ _ _ _ (fun q (X : In q []) => match X with end) H) as (A & B & _).
+    intro R. induction R as [|q t R IH E]; [exact B | exact (A q IH (fun X => X) t E)].
+Qed.
+
+(* ---- resolution is the rule of the property text (Spec_C12.spec_resolve) ---- *)
+Require Import spec.Spec_C12.
+
+Lemma sapp_nil_r s : (s ++ "")%string = s.
+Proof. induction s as [|c s IH]; cbn; [reflexivity | now rewrite IH]. Qed.
+Lemma sapp_assoc a b c : ((a ++ b) ++ c)%string = (a ++ (b ++ c))%string.
+Proof. induction a as [|x a IH]; cbn; [reflexivity | now rewrite IH]. Qed.
+
+Lemma split_slash_cons s : forall cur, exists x r, split_slash s cur = x :: r.
+Proof.
+  induction s as [|ch s IH]; intros cur; cbn; [eauto|].
+  destruct (Ascii.eqb ch "/"); [eauto | apply IH].
+Qed.
+
+Lemma split_slash_single s : forall cur x, split_slash s cur = [x] -> x = (cur ++ s)%string.
+Proof.
+  induction s as [|ch s IH]; intros cur x H; cbn in H.
+  - inversion H. now rewrite sapp_nil_r.
+  - destruct (Ascii.eqb ch "/").
+    + destruct (split_slash_cons s "") as (y & r & E). rewrite E in H. discriminate.
+    + rewrite (IH _ _ H). rewrite sapp_assoc. reflexivity.
+Qed.
+
+Lemma find_map_filter (w : world) (name : string) dirs :
+  find (file_exists w) (map (fun d => d ++ [name]) dirs) =
+  match filter (fun d => file_exists w (d ++ [name])) dirs with
+  | d :: _ => Some (d ++ [name])
+  | [] => None
+  end.
+Proof.
+  induction dirs as [|d dirs IH]; cbn; [reflexivity|].
+  destruct (file_exists w (d ++ [name])); [reflexivity | exact IH].
+Qed.
+
+Theorem resolve_is_spec w cur inc : resolve w cur inc = spec_resolve w cur inc.
+Proof.
+  unfold resolve, spec_resolve, has_dir_part, search_dirs.
+  destruct (split_slash inc "") as [|x [|y r]] eqn:E.
+  - destruct (split_slash_cons inc "") as (a & b & E'). rewrite E in E'. discriminate.
+  - apply split_slash_single in E. cbn in E. subst x. apply find_map_filter.
+  - reflexivity.
+Qed.
